@@ -237,8 +237,8 @@ def hexVal (c : UInt8) : Option Nat :=
 def urldecode : Bytes → Bytes
   | [] => []
   | c :: rest =>
-    if c = 43 then 32 :: urldecode rest
-    else if c = 37 then
+    if c = Gen.urldecPlus then Gen.urldecSpace :: urldecode rest
+    else if c = Gen.urldecPct then
       match rest with
       | a :: b :: rest' =>
         match hexVal a, hexVal b with
@@ -250,6 +250,6 @@ termination_by l => l.length
 decreasing_by all_goals (simp; try omega)
 
 def pathInfoOfTarget (target : Bytes) : Bytes :=
-  cstr (urldecode (target.takeWhile (· != 63)))
+  cstr (urldecode (target.takeWhile (· != Gen.queryCh)))
 
 end Cppcms.C13
